@@ -335,11 +335,13 @@ class Sim:
             self._fork(i, hi, op)
         elif op in O.DERIVES:
             self._derive(i, hi, op)
+        elif op == "drop":
+            self._drop(i, hi)
         elif op == "wfail":
             self._wfail(i, hi, st)
         else:
             raise HarnessError("unknown op %r" % (op,))
-        fb["new_memo"] = memo_mask(self.world[hi]) != before_mask
+        fb["new_memo"] = hi < len(self.world) and memo_mask(self.world[hi]) != before_mask
         return fb
 
     def _others(self, hi):
@@ -528,6 +530,26 @@ class Sim:
             self.stats["fork_with_memo"] += 1
         self._log(i, hi, op, "-> h%d" % (len(self.world) - 1))
         self._check_others(i, hi, op, others)
+
+    def _drop(self, i, hi):
+        """The newest handle goes out of scope and is garbage collected: what
+        is created afterwards may reuse its address (caches keyed by id(),
+        weak references to it die)."""
+        import gc
+
+        if len(self.world) < 2:
+            self._log(i, hi, "drop", "skipped")
+            return
+        others = [(j, sd, md) for j, sd, md in self._others(len(self.world) - 1)]
+        for lst in (self.world, self.titl0, self.repeat, self.last_mut, self.last_raise, self.armed):
+            lst.pop()
+        gc.collect()
+        self.stats["fork:drop"] += 1
+        self._log(i, 0, "drop", "-> %d handles" % len(self.world))
+        for j, sd, md in others:
+            o = self.world[j]
+            if state_digest(o) != sd or (self.deep_fork_check and memo_digest(o) + _cif_digest(o) != md):
+                raise Violation("FORK_INTERFERENCE", i, "drop", j, {"other_handle": j, "what": "freeing a handle changed another one"})
 
     def _derive(self, i, hi, op):
         """A crystal computed from handle `hi` joins the world as a handle of
